@@ -221,7 +221,12 @@ _BADNUM = re.compile(r'null|\d{10,}|\d\.\d|\d[eE][+-]?\d')
 
 def validate_line_for_tlc(line, where):
     """Cheap check of one raw ndjson line: no null, no non-integers, no integer beyond 9 digits."""
-    m = _BADNUM.search(_STR.sub('""', line))
+    m = None
+    for m in _BADNUM.finditer(_STR.sub('""', line)):
+        if m.group(0).isdigit() and len(m.group(0)) == 10 and int(m.group(0)) <= 2147483647:
+            m = None
+            continue
+        break
     if m:
         raise Infra("value %r in trace (%s) cannot be read faithfully by the TLC Json module" % (m.group(0), where))
 
